@@ -117,7 +117,7 @@ ADDENDA = {
  "C04": " Added later at the engine level: a flushing persister, an engine with a first function, a first function that refuses a request (the position stays), and ResetOnEmptyInput with the empty input (four further modes).",
  "C05": " Added later: a multi-byte answer (limits count bytes) and a directed family of four applications (taken and not-taken CATCH after MAP and MOUT, a sink symbol reused as a sized value, a value loaded below the entry node and left before the session ends), all histories of depth 4/5 in both modes with and without an output size.",
  "C07": " Added later: an engine WITH a persister kept for the whole session, a gateway that serves each request through engine.Loop, and - per application - all pairs of histories of two sessions served alternately (second one also starting two requests later) through ONE flushing persister, compared with being served alone; corpus applications with a first function, two lists with different browse labels, a failing load followed by another failing instruction.",
- "C08": " Added later: deep descents with a first function and after a failed load, junk input at the deepest point.",
+ "C08": " Added later: deep descents with a first function and after a failed load, junk input at the deepest point; terminated sessions that client code unblocks by clearing TERMINATE in the stored record.",
  "C09": " One of the values is the byte 0xff (not valid UTF-8); the clone copies every scalar field the tree declares.",
  "C10": " Added later: SetLock(0,false) as a seal request, eng (the library's default language) as one of the two languages, keys handed over as slices with caller-owned bytes behind them, value buffers overwritten by the caller after the call, and keys of 251/252 bytes.",
  "C11": " Added later: listing on the Postgres backend, sessions whose ids contain each other (own listing exact), records copied with Get+Put, and three persister arrangements (one per session, one re-pointed with WithSession, store handle shared with code that selects USERDATA).",
